@@ -10,12 +10,12 @@ from .explog import EXP, LOG
 
 
 class NumpyStub:
-    """np.exp / np.log / np.log1p / np.log2 / np.inf on mathematical (extended) reals."""
+    """np.exp / np.log / np.log1p / np.expm1 / np.log2 / np.inf on mathematical (extended) reals."""
 
     def __pyvc_getattr__(self, interp, name, node):
         if name == "inf":
             return POS_INF
-        if name in ("exp", "log", "log1p", "log2"):
+        if name in ("exp", "log", "log1p", "log2", "expm1"):
             return Native("np." + name, getattr(self, "_" + name))
         raise OutOfSubset("numpy." + name)
 
@@ -48,6 +48,10 @@ class NumpyStub:
     def _log1p(self, interp, args, kw):
         (y,) = args
         return self._log(interp, [interp.binop(__import__("ast").Add(), 1, y)], {})
+
+    def _expm1(self, interp, args, kw):
+        (y,) = args
+        return interp.binop(__import__("ast").Sub(), self._exp(interp, [y], {}), 1)
 
     def _log2(self, interp, args, kw):
         (u,) = args
